@@ -894,7 +894,7 @@ TYPE_SIZES = {'CK_BBOOL': 1, 'CK_BYTE': 1, 'CK_CHAR': 1, 'CK_UTF8CHAR': 1, 'CK_U
 def r10b_template_stores(ctx, prog):
     """The nested-template twin of R10: a value stored through the pValue of a caller's CK_ATTRIBUTE entry is stored only after the entry's ulValueLen was found to be at least
     the size of what is stored (typed store: the size of the type; memcpy: its length argument)."""
-    r = ctx.rule('C17.R10b', 'a store through a caller\'s CK_ATTRIBUTE.pValue is preceded by a test of that entry\'s ulValueLen against the size stored', floor=3, engine='E2 dominance + E8')
+    r = ctx.rule('C17.R10b', 'a store through a caller\'s CK_ATTRIBUTE.pValue is preceded by a test of that entry\'s ulValueLen against the size stored', floor=2, engine='E2 dominance + E8')
     for f in sorted(prog.functions.values(), key=lambda f: (f['file'], f['line'])):
         if f['body'] is None or unanalysable(f):
             continue
